@@ -38,6 +38,12 @@ func (p *PcClient) getProjectState(withMemory bool) (*types.ProjectState, error)
 	defer resp.Body.Close()
 	if resp.StatusCode != http.StatusOK {
 		log.Error().Msgf("failed to get project state - unexpected status code: %s", resp.Status)
+		var respErr pcError
+		if err = json.NewDecoder(resp.Body).Decode(&respErr); err != nil {
+			log.Err(err).Msg("failed to decode error response")
+			return nil, err
+		}
+		return nil, errors.New(respErr.Error)
 	}
 	var sResp types.ProjectState
 
